@@ -390,7 +390,7 @@ struct Obj {
 	std::map<int,std::pair<uint32_t,uint64_t>> interest;   // epoll: fd -> (events, data)
 	int64_t sndtimeo_us=0, rcvtimeo_us=0;
 	std::shared_ptr<FsFile> file; std::string path; uint64_t pos=0; int oflags=0;
-	int lock_node=-1;
+	int lock_node=-1; bool accepted=false;
 };
 static std::vector<std::shared_ptr<Obj>> fdtab;
 static std::map<std::string,int> listeners;
@@ -403,6 +403,7 @@ static int newfd(std::shared_ptr<Obj> o){
 }
 static void fd_reset(){ for(size_t i=0;i<fdtab.size();i++) if(fdtab[i]){ __real_close((int)i); fdtab[i].reset(); } listeners.clear(); }
 int open_sim_fds(){ int n=0; for(auto&o:fdtab) if(o) n++; return n; }
+int open_accepted_fds(){ int n=0; for(auto&o:fdtab) if(o&&o->accepted) n++; return n; }
 std::string describe_fds(){
 	std::string r; char b[256];
 	for(size_t i=0;i<fdtab.size();i++) if(fdtab[i]){ Obj&o=*fdtab[i];
@@ -463,7 +464,7 @@ extern "C" int __wrap_accept(int fd,struct sockaddr*sa,socklen_t*len){ IGN; SIMF
 	yield(); if(o->kind!=Obj::LISTENER){errno=EINVAL;return -1;}
 	if(P.p_eintr && frng.chance(P.p_eintr)){ S.eintr++; errno=EINTR; return -1; }
 	if(o->backlog.empty()){ if(o->nonblock){errno=EAGAIN;return -1;} block([o]{return !o->backlog.empty();},-1,"accept"); }
-	auto s=o->backlog.front(); o->backlog.pop_front(); fill_addr(*s,sa,len,true); S.accepts++;
+	auto s=o->backlog.front(); o->backlog.pop_front(); fill_addr(*s,sa,len,true); S.accepts++; s->accepted=true;
 	int n=newfd(s); tracef("accept %d -> %d",fd,n); return n; }
 extern "C" int __wrap_connect(int fd,const struct sockaddr*sa,socklen_t len){ IGN; SIMFD(o,fd); if(!o) return __real_connect(fd,sa,len);
 	yield(); std::string a=addr_str(sa); auto it=listeners.find(a);
